@@ -141,8 +141,10 @@ class C06:
         magic = struct.pack("<H", magic_int) + (b"\r\n" if magic_int not in (39170, 39171) else b"\x99\x00")
         header = magic + body[:hl - 4]
         data = header + (payload if payload is not None else b"N" + b"\0" * 60)
-        if len(data) < 60:
-            data += b"\0" * (60 - len(data))        # load_module wants >= 50 bytes; trailing bytes are not read
+        # load_module wants >= 50 bytes (trailing bytes are not read): exactly 50 is the smallest valid file
+        want_len = 50 if case["marker"] % 2 else 60
+        if len(data) < want_len:
+            data += b"\0" * (want_len - len(data))
         path = os.path.join(ctx.scratch, "h_%s.pyc" % ("pypy38" if is_pypy and magic_int in (3413, 3414) else "x"))
         with open(path, "wb") as f:
             f.write(data)
